@@ -1,6 +1,7 @@
 import AnySyncModel.Tree.Loader
 import AnySyncModel.Tree.LoaderLemmas
 import AnySyncModel.Tree.ApplyLemmas
+import AnySyncModel.Tree.ObjectTreeLemmas
 /-!
 C09 - full-sync responses are complete, causally ordered and size-bounded.
 
@@ -164,7 +165,8 @@ record (what the loader works on), `toC cs` gives the change back (what the rece
 
 /-- **apply_attaches_all**, full strength: a receiver tree (`AnySync.Tree.T`, nothing pending) that holds what the
 loader withholds, what lies before the common snapshot, and for every stored change its snapshot unless that is
-stored earlier (a snapshot is an ancestor), is fed the batches of `respond` in order through `add` (= `Tree.Add`);
+stored earlier (a snapshot is an ancestor) - every stored change it does not hold having previous ids (only the
+root has none) - is fed the batches of `respond` in order through `add` (= `Tree.Add`);
 afterwards it holds every sent change. -/
 def C09_apply_attaches_all_full : Prop :=
   ∀ (cs : List (Change × Nat)) (theirHeads : List Nat) (max : Nat) (t : T),
@@ -172,12 +174,13 @@ def C09_apply_attaches_all_full : Prop :=
     (∀ x ∈ removedSet (cs.map toS) theirHeads, t.has x = true) →
     (∀ c ∈ cs.map toS, ∀ p ∈ c.prevs, p ∉ (cs.map toS).map (·.id) → t.has p = true) →
     (∀ l1 p l2, cs = l1 ++ p :: l2 → t.has p.1.snap = true ∨ p.1.snap ∈ l1.map (·.1.id)) →
+    (∀ p ∈ cs, p.1.prevs ≠ [] ∨ t.has p.1.id = true) →
     ∀ c ∈ flat (respond (cs.map toS) theirHeads max),
       ((respond (cs.map toS) theirHeads max).foldl (fun t b => (add t (b.changes.map (toC cs))).tree) t).has c.id = true
 
 theorem apply_attaches_all : C09_apply_attaches_all_full :=
-  fun cs theirHeads max t hlin hnd hroot hun hrm hbefore hsnap =>
-    apply_attaches cs theirHeads max t hlin hnd hroot hun hrm hbefore hsnap
+  fun cs theirHeads max t hlin hnd hroot hun hrm hbefore hsnap hpar =>
+    apply_attaches cs theirHeads max t hlin hnd hroot hun hrm hbefore hsnap hpar
 
 /-- non-vacuity: a receiver holding only the root is sent the diamond in batches of two and ends up with all of it -/
 example :
@@ -186,6 +189,71 @@ example :
     ((respond (cs.map toS) [1] 11).map (·.ids) = [[2, 3], [4]]) ∧
     (((respond (cs.map toS) [1] 11).foldl (fun t b => (add t (b.changes.map (toC cs))).tree) t).att.map (·.id) = [1, 2, 3, 4]) := by
   decide
+
+/-! ### the receiver on the real path (`ObjectTree.AddRawChanges`)
+
+`addRaw` (`Tree/ObjectTree.lean`) models `addChangesToTree`: skip what is attached in memory; if some new change cites
+a snapshot that is neither the in-memory root nor arriving in the same batch, rebuild from storage at the common
+snapshot of the two snapshot paths and re-add (stored sequence from there, then the not yet stored changes, through
+`AddFast` into an empty tree); otherwise `Tree.Add` into the in-memory tree.  `Recv`/`RecvStep`/`RecvRun` make the
+receiver a state machine (storage update after each step, in-memory root free to move to a snapshot of the new tree). -/
+
+/-- **the receiver half on the real path**, full strength: a receiver whose state is consistent (`recvOk`: for every
+snapshot `cs` of its path the storage from `cs` on satisfies `StoredFor` for some attached set, the in-memory tree
+being the one at the head of the path) runs over the batches of an answer that is causal for it (`senderOk`: every
+previous id / snapshot base of a sent change is stored by the receiver or sent earlier; only stored changes lack
+previous ids); afterwards it stores every sent change. -/
+def C09_apply_real_path_full : Prop :=
+  ∀ (q0 q : Recv) (theirPath : List Nat) (batches : List (List Change)),
+    -- recvOk
+    q0.tree.unatt = [] → q0.tree.root = q0.path.head? → q0.tree.root.isSome = true →
+    (∀ cs ∈ q0.path, ∃ csC rest A, q0.stored.dropWhile (·.id != cs) = csC :: rest ∧ StoredFor A cs csC rest ∧
+      (q0.tree.root = some cs → A.Perm q0.tree.att)) →
+    -- senderOk
+    (∀ l1 c l2, batches.flatten = l1 ++ c :: l2 →
+      (∀ p ∈ c.prevs, q0.holds p = true ∨ p ∈ l1.map (·.id)) ∧ (q0.holds c.snap = true ∨ c.snap ∈ l1.map (·.id)) ∧
+      (c.prevs ≠ [] ∨ q0.holds c.id = true)) →
+    (∃ cs, commonSnapshot q0.path theirPath = some cs) →
+    RecvRun theirPath q0 batches q →
+    ∀ c ∈ batches.flatten, q.holds c.id = true
+
+/-- **apply_real_path_partial**: one `AddRawChanges` step, both branches.
+* in-memory branch: a batch that is causal for the in-memory tree is attached completely;
+* rebuild branch: with `A` what the storage attaches from the common snapshot `cs`, if the not yet stored changes of
+  the batch extend it (`StoredFor (A ++ E) cs csC (rest ++ E)`), the rebuilt tree is rooted at `cs`, holds exactly
+  `A` and those changes, and reports exactly them as added (so they are written to storage).
+Exact gap to `C09_apply_real_path_full`: that the hypotheses are re-established after every step - i.e. that the
+storage update (`StorageUpdate`, proved order-wise by C06 `storage_order`) and the root move keep, for every snapshot
+of the new path, the storage *closed under attachability* and every change stored after its snapshot base.  This
+is the receiver-side snapshot invariant (Inv-S of the sync area, `Sync.SnapInv`/`RootOk`, proved there for the
+abstract protocol); it is not derived here for the concrete `Recv` machine.  The harness exercises exactly this
+path (`apply.attach`, `apply.complete`, `settle` oracles; `objecttree.addraw` and `tree.rebuild` streams). -/
+theorem apply_real_path_partial (stored : List Change) (ourPath theirPath : List Nat) (t : T) (batch : List Change)
+    (t' : T) (added : List Nat) :
+    (t.unatt = [] → t.root.isSome = true → CausalFor t (newOf t batch) →
+      addRaw stored ourPath theirPath t batch = .plain t' added →
+      t'.root = t.root ∧ ∀ c ∈ batch, t'.has c.id = true) ∧
+    (∀ (cs : Nat) (csC : Change) (rest A : List Change),
+      commonSnapshot ourPath theirPath = some cs → stored.dropWhile (·.id != cs) = csC :: rest →
+      StoredFor (A ++ extraOf stored t batch) cs csC (rest ++ extraOf stored t batch) →
+      addRaw stored ourPath theirPath t batch = .rebuilt t' added →
+      t'.root = some cs ∧ t'.unatt = [] ∧ (∀ d, d ∈ t'.att ↔ d ∈ A ∨ d ∈ extraOf stored t batch) ∧
+      (∀ x, x ∈ added ↔ x ∈ (extraOf stored t batch).map (·.id)) ∧
+      (∀ c ∈ batch, t.has c.id = false → stored.any (·.id == c.id) = false → t'.has c.id = true)) :=
+  ⟨fun hun hroot hcaus hres => addRaw_plain stored ourPath theirPath t batch t' added hun hroot hcaus hres,
+   fun cs csC rest A hcs hload hst hres =>
+     addRaw_rebuilt stored ourPath theirPath t batch cs csC rest A t' added hcs hload hst hres⟩
+
+/-- an instance of the rebuild branch: the receiver is reduced to snapshot `2` (path `2,1`) and stores `1,2,3`; a
+sender still rooted at `1` (path `1`) delivers `5` (child of `1`, snapshot base `1`): the tree is rebuilt at `1` and
+holds `1,2,3,5`; `5` is reported as added -/
+example :
+    let stored : List Change := [⟨1, [], 0, true⟩, ⟨2, [1], 1, true⟩, ⟨3, [2], 2, false⟩]
+    let t : T := { root := some 2, att := [⟨2, [1], 1, true⟩, ⟨3, [2], 2, false⟩], lastIter := 3 }
+    (addRaw stored [2, 1] [1] t [⟨5, [1], 1, false⟩]).kind = "rebuilt" ∧
+    (addRaw stored [2, 1] [1] t [⟨5, [1], 1, false⟩]).added = [5] ∧
+    ((addRaw stored [2, 1] [1] t [⟨5, [1], 1, false⟩]).tree?.map (fun t' => (t'.root, iter 1 t'.att)))
+      = some (some 1, [1, 2, 3, 5]) := by decide
 
 /-- the loader half, stated on its own -/
 def C09_apply_loader_half : Prop :=
